@@ -571,7 +571,9 @@ var transSpecs = []transSpec{
 			"Option.apply": {kind: "extfld", f: "Option.apply", flds: lgNames},
 		}),
 		loggerFunc("WithLazy", map[string]shim{
-			"recv.WithOptions": {kind: "fun", f: "Logger_WithOptions", res: []string{"Logger"}, vari: 1},
+			// proved about the source as Logger_WithOptions_matches_source (there the receiver is read through the SECOND
+			// object, so the two terms do not compose on one environment): here an intrinsic on the receiver's fields
+			"recv.WithOptions": {kind: "ext", f: "Logger.WithOptions", with: lgNames, res: []string{"Logger"}},
 			"WrapCore":         {kind: "ext", f: "WrapCore", res: []string{"Option"}},
 		}),
 		withFunc("zapcore/core.go", "ioCore", "clone", ioWithFields, nil, nil),
